@@ -1841,6 +1841,7 @@ class LeCreditBasedChannel(utils.EventEmitter):
             self.destination_cid = response.destination_cid
             self.peer_mtu = response.mtu
             self.peer_mps = response.mps
+            self.att_mtu = min(self.mtu, self.peer_mtu)
             self.credits = response.initial_credits
             self.connected = True
             self.connection_result.set_result(self)
@@ -1869,6 +1870,7 @@ class LeCreditBasedChannel(utils.EventEmitter):
             self.destination_cid = destination_cid
             self.peer_mtu = response.mtu
             self.peer_mps = response.mps
+            self.att_mtu = min(self.mtu, self.peer_mtu)
             self.credits = response.initial_credits
             self.connected = True
             self._change_state(self.State.CONNECTED)
